@@ -73,12 +73,15 @@ theorem mapOut_cutCall {α β} (o : CallOut α) (f : α → Except Exc β) :
 theorem call_cut (cfg : Cfg) (ie so : Bool) (c : Call) (sc : Script) (evs : List Ev) :
     call cfg ie so c { sc with evs := cutAtFault evs } = cutCall (call cfg ie so c { sc with evs := evs }) := by
   rcases shape cfg c with ⟨res, hcall⟩ | ⟨verb, cmds, nr, f, hcall, -, -, -⟩ |
-    ⟨cmds, nr, tok, f, hcall, -, -, -, -⟩ | ⟨kind, cmd, wanted, g, hcall, -⟩ | hq
+    ⟨cmds, nr, tok, f, hcall, -, -, -, -⟩ | ⟨kind, cmd, wanted, g, hcall, -⟩ | hq | ⟨gr, hsd⟩
   · simp only [hcall]; rfl
   · simp only [hcall, exchangeStore_cut, mapOut_cutCall]
   · simp only [hcall, exchangeMisc_cut, mapOut_cutCall]
   · simp only [hcall, exchangeFetch_cut, mapOut_cutCall]
   · subst hq
     simp only [call, exchangeMisc_cut]
+    rfl
+  · subst hsd
+    simp only [call_shutdown, exchangeMisc_cut, mapOut_cutCall]
     rfl
 end Client
